@@ -1080,8 +1080,8 @@ func main() {
 		return
 	}
 	qp := findPkg(pkgs, "/lib/query")
-	if out := os.Getenv("ERRFACTS_SIZE_LEAN"); out != "" { // second output: the size sites (sizefacts.go), written beside the main one
-		writeSizeFacts(qp, out, os.Getenv("ERRFACTS_SIZE_JSON"))
+	if dir := os.Getenv("ERRFACTS_SIZE_DIR"); dir != "" { // second output: size sites, loops, conversions (sizefacts.go, loopfacts.go), written beside the main one
+		writeSizeFacts(pkgs, dir)
 		if os.Getenv("ERRFACTS_ONLY_SIZE") != "" {
 			return
 		}
